@@ -29,7 +29,7 @@ ALPHABET = [
     'Int(1)', 'Int(2)', 'Int(4)', 'Int(8)', 'Int(2, signed=True)', 'Int(1, signed=True)',
     'Int(4, endianness="little")', 'Int(2, endianness="little", signed=True)', 'Int(2, endianness="local")',
     'Int(3)', 'Data(2)', 'Data(1)', 'Data(until_marker=b"\\n")', 'Ref(Inner)',
-    'Int(1).repeated(2)', 'Int(2).at(6)', 'BITS', 'DESC',
+    'Int(1).repeated(2)', 'Int(2).at(6)', 'BITS', 'DESC', 'DESC2',
 ]
 
 
@@ -57,6 +57,10 @@ def body_of(seq):
         if f == 'BITS':
             lines.append('b%da = Bits(3)' % i)
             lines.append('b%db = Bits(5)' % i)
+        elif f == 'DESC2':
+            # a described field whose descriptor has both hooks (sync_before_pack and sync_after_unpack)
+            lines.append('m%d = Int(1).describe(Both("e%d"))' % (i, i))
+            lines.append('e%d = Data(m%d)' % (i, i))
         elif f == 'DESC':
             # a described field (descriptor sync hooks run before pack / after unpack) and the byte string it measures
             lines.append('n%d = Int(1).describe(AutoLength("d%d"))' % (i, i))
